@@ -58,13 +58,22 @@ def false_init(x):
     return False
 
 
-def transitions(ctx, ckey):
-    """(kind, ignore_in) -> dict(emit, ignore_out, prefix_write, path)"""
+def transitions(ctx, ckey, wanted=None):
+    """(kind, ignore_in) -> dict(emit, ignore_out, prefix_write, path).  `wanted` = {kind: bool} when the closure delegates the decision for the
+    kinds it does not handle itself to a predicate it captured (a shared `filter_cmds(wanted)` helper)"""
     fx = ctx.fx
     paths = ret_paths(ctx.paths(ckey) or [])
     table = {}
     for p in paths:
         kinds = entry_of(fx, p)
+        rr = strip_refs(p.end[1])
+        if wanted is not None and is_call(rr, "ops::function::Fn", "::call") and len(call_args(rr)) == 2 and flag_place(call_args(rr)[0], "wanted") \
+                and mentions(call_args(rr)[1], lambda s_: s_ == ("param", 2)) and not any(e.kind == "store" for e in p.events):
+            # the captured predicate applied to this very entry decides, and nothing else happens on this path
+            for k in kinds:
+                for iv in (False, True):
+                    table.setdefault((k, iv), []).append(dict(emit=wanted.get(k), ign_out=iv, prefix=None, path=p))
+            continue
         ign = None
         for c in p.conds():
             if is_flag_read(c.term):
@@ -213,7 +222,24 @@ def run(ctx):
             ck = fn
             body = ctx.body(fn)
         else:
-            table = transitions(ctx, ck)
+            # the stateful closure may live in a helper the view hands its own (stateless) predicate to: self.filter_cmds(|e| matches!(e, ..))
+            wanted = None
+            for q in ret_paths(ctx.paths(fn) or []):
+                r_ = strip_refs(q.end[1])
+                if is_call(r_, "::collect") and call_args(r_):
+                    ad_ = strip_refs(call_args(r_)[0])
+                    clo_ = strip_refs(call_args(ad_)[1]) if is_call(ad_, "::filter", "::filter_map") and len(call_args(ad_)) == 2 else None
+                    if isinstance(clo_, tuple) and clo_[:2] == ("agg", "closure") and clo_[2] != ck and fx.fn(clo_[2]) is not None:
+                        own = [strip_refs(c_) for c_ in clo_[4] if isinstance(strip_refs(c_), tuple) and strip_refs(c_)[:2] == ("agg", "closure") and strip_refs(c_)[2] == ck]
+                        if len(own) == 1 and not own[0][4]:
+                            wanted = {}
+                            for wp in ret_paths(ctx.paths(ck) or []):
+                                for k_ in entry_of(fx, wp):
+                                    v_ = const_of(wp.end[1])
+                                    wanted[k_] = v_ if (k_ not in wanted or wanted[k_] == v_) and isinstance(v_, bool) else None
+                            ck = clo_[2]
+                            body = ctx.body(ck)
+            table = transitions(ctx, ck, wanted)
         n = 0
         for k in kinds:
             for iv in (False, True):
